@@ -318,6 +318,13 @@ def pool(rep, ex: Explorer):
                 if p.outcome[0] != "return":
                     continue
                 d = p.state.heap.get(held["es"].oid)
+                # one id pool per state: a second pool kept in another slot hands out numbers the first one hands out as well
+                # (helper variables of the blocking clauses and the variables of a later query would share an integer)
+                for k_, v_ in (d.entries.items() if isinstance(d, HDict) else ()):
+                    o_ = p.state.heap.get(v_.oid) if isinstance(v_, Ref) else None
+                    if k_ != "pool" and isinstance(o_, HOpaque) and o_.typ == "IDPool":
+                        rep.violation("CNF.pool", site, f"second id pool ({'pool present' if present else 'pool missing'})", "ids of the base, of every query and of the helper variables come from ONE pool per state (two pools hand out the same integers)",
+                                      extracted=f"state[{k_!r}] is another IDPool created by this constructor", required="only state['pool']", function=site)
                 for k in SLOTS:
                     n += 1
                     v = d.entries.get(k) if isinstance(d, HDict) else None
